@@ -421,25 +421,37 @@ def pairwise_kernels(X, Y=None, metric="linear", **kw):
 
 class Frozen:
     """scipy.stats frozen distribution by contract (location-scale family): records its parameters; mean() = loc,
-    std() = scale * c(df), entropy() = log(scale) + h(df); rvs = loc + scale * standard draws of the given generator"""
+    std() = scale * c(df), entropy() = log(scale) + h(df); rvs = loc + scale * standard draws of the given generator.
+    scipy requires scale > 0: where it is not (0, negative, NaN) every statistic is NaN"""
 
     def __init__(self, kind, loc, scale, df=None):
         self.kind, self.loc, self.scale, self.df = kind, asnd(loc).astype(float), asnd(scale).astype(float), df
         self.calls = []
 
+    def _valid_or_nan(self, values):
+        values = asnd(values).astype(float)
+        shp = _np.broadcast_shapes(values.shape, self.scale.shape)
+        rv = _np.broadcast_to(raw(values), shp)
+        rs = _np.broadcast_to(raw(self.scale), shp)
+        out = _np.empty(shp, dtype=object)
+        for idx in _np.ndindex(shp):
+            ok = core.boolexpr(core.s_lt(0, rs[idx]))
+            out[idx] = arrays.f_ite(ok, rv[idx], _np.float64("nan")) if not core._isc(ok) else (rv[idx] if ok else _np.float64("nan"))
+        return arrays._wrap(out, arrays.FLOAT)
+
     def mean(self):
         self.calls.append("mean")
-        self._mean = self.loc.copy()
+        self._mean = self._valid_or_nan(self.loc)
         return self._mean
 
     def std(self):
         self.calls.append("std")
-        self._std = self.scale.copy()   # (the df dependent factor is outside the model)
+        self._std = self._valid_or_nan(self.scale)   # (the df dependent factor is outside the model)
         return self._std
 
     def entropy(self):
         self.calls.append("entropy")
-        self._entropy = elementwise("log", (self.scale,))
+        self._entropy = self._valid_or_nan(elementwise("log", (self.scale,)))
         return self._entropy
 
     def rvs(self, size=None, random_state=None):
